@@ -13,6 +13,8 @@ package main
 import (
 	"fmt"
 	"go/token"
+	"math/big"
+	"regexp"
 	"sort"
 	"strings"
 
@@ -57,6 +59,8 @@ func feeProduct(t *T, kind string) (*T, bool) {
 	return nil, false
 }
 
+var growthTabRe = regexp.MustCompile(`^\*g:bt\.(\w+)\[uint64\(\(\*bt\.Tx\)\.OutputCount\(p0\)\)\]$`)
+
 func ruleGChg(c *Ctx) {
 	fn := c.P.Func("", "*Tx", "change")
 	if fn == nil {
@@ -80,6 +84,19 @@ func ruleGChg(c *Ctx) {
 			return "PREFIX(0)"
 		case "uint64((bt.VarInt).UpperLimitInc(VarInt((*bt.Tx).OutputCount(p0))))":
 			return "GROWTH"
+		}
+		// the growth of the count prefix read from a constant table keyed by the output count: the same
+		// function while the table lists exactly the three counts at which the prefix widens
+		if m := growthTabRe.FindStringSubmatch(s); m != nil {
+			if pkg := c.P.SSAPkg(modPath); pkg != nil {
+				if g, ok := pkg.Members[m[1]].(*ssa.Global); ok {
+					if tab := constTableOf(c.P, g); tab != nil && tab.isMap && len(tab.vals) == 3 &&
+						tab.at(big.NewInt(0xfc)).Int64() == 2 && tab.at(big.NewInt(0xffff)).Int64() == 2 && tab.at(big.NewInt(0xffffffff)).Int64() == 4 &&
+						tab.has(big.NewInt(0xfc)) && tab.has(big.NewInt(0xffff)) && tab.has(big.NewInt(0xffffffff)) {
+						return "GROWTH"
+					}
+				}
+			}
 		}
 		return s
 	}
@@ -137,6 +154,9 @@ func ruleGChg(c *Ctx) {
 			case ca == "(p2.lockingScript == nil)":
 				scriptNil = fmt.Sprint(ct)
 			case strings.Contains(ca, "UpperLimitInc") && strings.HasSuffix(ca, "== -1)"):
+				limit = ct
+			case ca == "(uint64((*bt.Tx).OutputCount(p0)) == 18446744073709551615)":
+				// the same limit tested on the count itself (UpperLimitInc gives -1 exactly there: rule T-lim)
 				limit = ct
 			default:
 				// every inequality is read as  a <= b  (or a < b) with the available-side operand on the left:
